@@ -103,14 +103,14 @@ struct Shape {
 
 const DIRS: [&str; 5] = ["/", "/d/", "/../", "/d/../../", "/l/"];
 const N_BASE: u8 = 10; // f, l, .., ../f, "", absolute path inside the jail, l/f and l/s/f (slashes inside the base name), s.tmp, s.txt
-const N_KIND: u8 = 9;
+const N_KIND: u8 = 10;
 
 fn alphabet(full: bool) -> Vec<Shape> {
     let mut v = vec![];
     let (dirs, bases, kinds): (Vec<&'static str>, Vec<u8>, Vec<u8>) = if full {
         (DIRS.to_vec(), (0..N_BASE).collect(), (0..N_KIND).collect())
     } else {
-        (vec!["/", "/../", "/l/"], vec![0, 1, 2, 4, 5, 6, 7, 8, 9], vec![0, 1, 5, 6, 7, 8])
+        (vec!["/", "/../", "/l/"], vec![0, 1, 2, 4, 5, 6, 7, 8, 9], vec![0, 1, 5, 6, 7, 8, 9])
     };
     for d in &dirs {
         for b in &bases {
@@ -145,6 +145,7 @@ fn materialise(s: &Shape, jail: &Jail) -> FFile {
         5 => link("../../outside.txt"),
         6 => link("../../outside-dir"),
         7 => link(&jail.outside_dir()),
+        9 => link("../../dangling"), // names nothing yet; its parent directory exists outside the target
         _ => {
             let mut f = FFile::regular(s.dir, &base, b"DATA");
             f.mode = 0o010644; // fifo
@@ -371,7 +372,13 @@ fn benign_specs() -> Vec<BuildSpec> {
         let tmp = FileSpec::new("/p/settings.tmp", Content::Bytes(b"tmp".to_vec()));
         let toml = FileSpec::new("/p/settings.toml", Content::Bytes(b"toml".to_vec()));
         let bak = FileSpec::new("/p/settings.toml.bak", Content::Bytes(b"bak".to_vec()));
+        // hidden names next to their plain twins, at the top level and below
+        let hidden: Vec<FileSpec> = ["/.config/settings", "/config/settings", "/.hidden", "/hidden", "/p/.hidden", "/p/hidden", "/..data/x", "/.data/x"]
+            .iter()
+            .map(|p| FileSpec::new(p, Content::Bytes(format!("content of {}", p).into_bytes())))
+            .collect();
         s.files = vec![f, d, deep, ln, dangling, top, tmp, toml, bak];
+        s.files.extend(hidden);
         v.push(s);
     }
     v
@@ -385,7 +392,7 @@ pub fn sweeps(ctx: &Ctx) -> Vec<Sweep> {
     {
         let a = full.clone();
         let n = a.len() as u64 * 4;
-        v.push(Sweep::new("hostile-1", format!("every single entry of the alphabet: dirname ∈ {:?} × basename ∈ {{f, l, .., ../f, \"\", absolute path inside the jail, l/f, l/s/f, s.tmp, s.txt}} × kind ∈ {{regular, directory, symlink → f | .. | ../.. | ../../outside.txt | ../../outside-dir | absolute jail path, fifo}} ({} extractions: each as a newc archive and as stripped index-addressed entries, into an absolute and into a relative destination); snapshot of everything outside the target before/after extract; no panic", DIRS, n), n, {
+        v.push(Sweep::new("hostile-1", format!("every single entry of the alphabet: dirname ∈ {:?} × basename ∈ {{f, l, .., ../f, \"\", absolute path inside the jail, l/f, l/s/f, s.tmp, s.txt}} × kind ∈ {{regular, directory, symlink → f | .. | ../.. | ../../outside.txt | ../../outside-dir | absolute jail path | ../../dangling (not existing), fifo}} ({} extractions: each as a newc archive and as stripped index-addressed entries, into an absolute and into a relative destination); snapshot of everything outside the target before/after extract; no panic", DIRS, n), n, {
             let jail = Jail::new("h1");
             move |i, acc| hostile_case("hostile-1", &jail, &[&a[(i / 4) as usize]], i % 2 == 1, i % 4 >= 2, i, acc)
         }));
